@@ -74,7 +74,9 @@ fn t_probe_k<S: Src>(s: &mut S, k: usize) {
         vassert!(rt.is_silent() && post.identical(&pre), "c17: rejected probe timer leaves no trace");
         return;
     }
-    post_common(&pre, &post, &f, &rt, Ctx::quiet());
+    let mut cx = Ctx::quiet();
+    cx.own_timers[0] = 1;
+    post_common(&pre, &post, &f, &rt, cx);
 
     let valid = pre.probe.direct.is_none() || pre.probe.reached;
     let evidence = pre.probe.direct_ack_ok || pre.probe.indirect_ack_count > 0;
@@ -340,7 +342,11 @@ fn periodic<S: Src>(s: &mut S, which: u8) {
     let r = f.handle_timer(t.clone(), &mut rt);
     let post = snap(&f);
     vassert!(r.is_ok(), "c13: periodic timers never fail");
-    post_common(&pre, &post, &f, &rt, Ctx::quiet());
+    let mut cx = Ctx::quiet();
+    if is_conn(pre.conn) && enabled.is_some() {
+        cx.own_timers[match which { 0 => 1, 1 => 3, _ => 2 }] = 1;
+    }
+    post_common(&pre, &post, &f, &rt, cx);
     vassert!(rt.nn == 0 && post.same_members(&pre) && post.token == pre.token && post.conn == pre.conn
         && post.incarnation == pre.incarnation && post.probe == pre.probe && post.enc_n == pre.enc_n,
         "c13: periodic tasks change no protocol state");
